@@ -4,13 +4,16 @@
 //
 // request  : holdout <n> <perc> <prefill_va> <vseed> <run> <run> ...        (vseed % 3 == 0: no evaluator given)
 //            dss <n> <gap> <initial_va> <runs> <gens> <vseed> <profile_seed>
+//            schema <n> <nva> <seed>   dataframe::clone_schema called directly: `A schema 0 | … | 0` (nothing moves)
 //            wsum <n> <seed>       (only meaningful in a build with asserts / debug log: NDEBUG off)
 // answer   : <step> ## <oracle> ;; <step> ## <oracle> ;; ...
 //   step   : H <perc> <run> | pre_tr | pre_va | post_tr | post_va | clears hasEva  (ids)
 //            D init <run> | pre_tr | pre_va | post_tr | post_va | ret ct cv        (id:age:diff)
 //            D shake <gap> <g> | ... ; D close <run> | ...
 //   oracle : "fine" or a space separated list of failed clauses
-//            (lost dup altered empty-tr empty-va share later-run reset val-changed report close)
+//            (lost dup altered empty-tr empty-va share later-run reset val-changed report close schema)
+// The training frame carries class metadata (two labels), the validation frame none: after a call that
+// fills an EMPTY validation frame from the training frame, validation.classes() == training.classes().
 #include "kernel/vita.h"
 #include "kernel/gp/src/dss.h"
 #include "kernel/gp/src/holdout_validation.h"
@@ -109,6 +112,14 @@ std::string verdict(const std::vector<std::string> &bad)
   return r;
 }
 
+// gives a frame the metadata of a two-class data set (no examples)
+void give_schema(dataframe &d)
+{
+  std::istringstream is("a,1.0,2.0\nb,3.0,4.0\n");
+  d.read_csv(is);
+  d.clear();
+}
+
 struct counting final : cached_evaluator
 {
   unsigned n = 0;
@@ -121,6 +132,7 @@ std::string do_holdout(const std::vector<std::string> &t)
   random::seed(std::stoul(t[4]));
 
   src_problem p;
+  give_schema(p.data(dataset_t::training));
   for (unsigned i(0); i < n; ++i)
     p.data(dataset_t::training).push_back(make_example(i + 1));
   for (unsigned i(0); i < prefill; ++i)
@@ -150,6 +162,10 @@ std::string do_holdout(const std::vector<std::string> &t)
       if (qtr.size() != share) bad.push_back("share");
       // the split changes the training set: cached fitness values must be dropped (when an evaluator is known)
       if (dt != (has_eva ? 1u : 0u)) bad.push_back("report");
+      // the validation frame describes the examples it received
+      if (p.data(dataset_t::validation).classes() != p.data(dataset_t::training).classes()
+          || p.data(dataset_t::training).classes() != 2)
+        bad.push_back("schema");
     }
     else if (show_ids(ptr) != show_ids(qtr) || show_ids(pva) != show_ids(qva) || dt)
       bad.push_back("later-run");
@@ -170,6 +186,7 @@ std::string do_dss(const std::vector<std::string> &t)
   verif::splitmix prof(std::stoull(t[7]));
 
   src_problem p;
+  give_schema(p.data(dataset_t::training));
   for (unsigned i(0); i < n; ++i)
     p.data(i < initial_va ? dataset_t::validation : dataset_t::training).push_back(make_example(i + 1));
   p.env.dss = gap;
@@ -224,6 +241,12 @@ std::string do_dss(const std::vector<std::string> &t)
       if (dt != 1 || dv != 1) bad.push_back("report");
     }
 
+    // an empty validation frame that received the training examples describes them
+    if ((reshuffle || kind == 2) && pva.empty() && !ptr.empty() && va.classes() != tr.classes())
+      bad.push_back("schema");
+    if (tr.classes() != 2)
+      bad.push_back("schema");
+
     if (!out.empty()) out += " ;; ";
     out += head + " | " + show_full(ptr) + " | " + show_full(pva) + " | " + show_full(qtr) + " | "
            + show_full(qva) + " | " + std::to_string(int(ret)) + " " + std::to_string(dt) + " "
@@ -267,6 +290,33 @@ std::string do_dss(const std::vector<std::string> &t)
     step("D close " + std::to_string(r), 2, 0, [&] { d.close(r); return false; });
   }
   return out;
+}
+
+// dataframe::clone_schema called directly: metadata only, no example moves
+std::string do_schema(const std::vector<std::string> &t)
+{
+  const unsigned n(std::stoul(t[1])), nva(std::stoul(t[2]));
+  verif::splitmix r(std::stoull(t[3]));
+  dataframe a, b;
+  give_schema(a);
+  for (unsigned i(0); i < n; ++i)
+  {
+    auto e(make_example(i + 1));
+    e.age = r.below(5);  e.difficulty = r.below(100);
+    a.push_back(e);
+  }
+  for (unsigned i(0); i < nva; ++i)
+    b.push_back(make_example(n + i + 1));
+  const bool rev(r.below(4) == 0);       // sometimes the other way round (training takes the empty schema)
+  const snap pa(take(a)), pb(take(b));
+  if (rev) a.clone_schema(b); else b.clone_schema(a);
+  const snap qa(take(a)), qb(take(b));
+  std::vector<std::string> bad;
+  conservation(pa, pb, qa, qb, bad);
+  if (show_full(pa) != show_full(qa) || show_full(pb) != show_full(qb)) bad.push_back("schema-moved-examples");
+  if (a.classes() != b.classes() || a.classes() != (rev ? 0u : 2u)) bad.push_back("schema");
+  return "A schema 0 | " + show_full(pa) + " | " + show_full(pb) + " | " + show_full(qa) + " | " + show_full(qb)
+         + " | 0 ## " + verdict(bad);
 }
 
 // weight sum as the library computes it (debug log of shake_impl), as this harness computes it, and
@@ -345,6 +395,7 @@ int main()
       if (t.size() >= 6 && t[0] == "holdout") ans = do_holdout(t);
       else if (t.size() == 8 && t[0] == "dss") ans = do_dss(t);
       else if (t.size() == 3 && t[0] == "wsum") ans = do_wsum(t);
+      else if (t.size() == 4 && t[0] == "schema") ans = do_schema(t);
     }
     catch (const std::exception &e)
     {
